@@ -94,9 +94,10 @@ func (r tabixShim) End() int   { return r.end }
 func (i *Index) Add(r Record, c bgzf.Chunk, placed, mapped bool) error {
 	refName := r.RefName()
 	rid, ok := i.nameMap[refName]
-	if !ok {
+	if !ok && placed {
 		rid = len(i.refNames)
 		i.refNames = append(i.refNames, refName)
+		i.nameMap[refName] = rid
 	}
 	shim := tabixShim{id: rid, start: r.Start(), end: r.End()}
 	return i.idx.Add(shim, internal.BinFor(r.Start(), r.End()), c, placed, mapped)
